@@ -312,6 +312,20 @@ def errprop(ctx, fn, paths, body, rule="D3-ERRPROP", no_effects_after_error=("::
     """Every Result produced by a call reaches Try::branch whose Break edge returns the residual (or is returned)."""
     n = 0
     seen = set()
+    # iterator adapters that silently discard Err items: .map_while(Result::ok) / .filter_map(Result::ok) / .flat_map(Result::ok) / .flatten() over io::Lines / io::Split
+    swallowed = set()
+    for p in paths:
+        for e in p.events:
+            if e.kind != "call" or e.bb in swallowed:
+                continue
+            last = e.name.split("::")[-1]
+            fnargs = [a for a in e.args if isinstance(a, tuple) and a[0] == "const" and isinstance(a[2], tuple) and a[2][0] == "fn" and mir.norm_path(a[2][1]).endswith("Result::ok")]
+            if last in ("map_while", "filter_map", "flat_map", "map", "take_while", "scan") and fnargs:
+                swallowed.add(e.bb)
+                ctx.violation(rule, fn, "adapter=%s(Result::ok)" % last, "the iterator's Err items are discarded by .%s(Result::ok): an error ends or thins the stream silently instead of being returned" % last, body.span_of(e.bb))
+            elif last == "flatten" and ("std::io::Lines" in e.full or "std::io::Split" in e.full or "Result<" in e.full.split(" as ")[0]):
+                swallowed.add(e.bb)
+                ctx.violation(rule, fn, "adapter=flatten", "flatten() over an iterator of Results drops every Err item silently", body.span_of(e.bb))
     for p in paths:
         for idx, e in enumerate(p.events):
             if e.kind != "call":
@@ -564,3 +578,26 @@ def top_field(t):
         else:
             return None
     return None
+
+
+def mutators_of(paths, is_target):
+    """names of the calls that receive a mutable borrow of the target collection (is_target: predicate on the borrowed place term)"""
+    out = {}
+    for p in paths:
+        for e in p.events:
+            if e.kind == "call" and e.args and isinstance(e.args[0], tuple) and e.args[0][0] == "refmut" and is_target(e.args[0][1]):
+                out.setdefault(e.name.split("::")[-1], set()).add(e.bb)
+    return out
+
+
+def only_appended(ctx, rule, fn, what, is_target, allowed=("push",), floor=1):
+    """the result collection is only ever appended to: no retain/remove/dedup/sort/clear/truncate/insert-at-front ..."""
+    paths = ctx.paths(fn)
+    body = ctx.body(fn)
+    if not paths:
+        return
+    mu = mutators_of(paths, is_target)
+    bad = sorted(k for k in mu if k not in allowed)
+    n = sum(len(v) for k, v in mu.items() if k in allowed)
+    ctx.check(not bad and n >= floor, rule, fn, "only-appended:" + what, "%s is only appended to (%s)" % (what, sorted(mu)),
+              "%s is also modified through %s (or never appended to): results can be dropped, reordered or altered after they were produced" % (what, bad or "nothing"), fn_span(body))
